@@ -7,6 +7,7 @@ import (
 	"errors"
 	"fmt"
 	"slices"
+	"strings"
 	"sync"
 	"sync/atomic"
 
@@ -213,7 +214,17 @@ func CheckOtherIndex(st *stor.Stor, ix *schema.Index, ov *index.Overlay,
 			fkIter := fkOverlay.BtreeIter()
 			fkIter.Next()
 			trunc := ixkey.TruncFunc(ix.Ixspec, fkSpec)
+			// when all the fields of a unique index are empty
+			// its key is separators followed by the key fields (Ixspec.Fields2)
+			// an empty foreign key does not reference anything
+			allEmpty := ""
+			if len(ix.Ixspec.Fields2) > 0 {
+				allEmpty = strings.Repeat(ixkey.Sep, len(ix.Ixspec.Fields))
+			}
 			checkFkey = func(key string) {
+				if allEmpty != "" && strings.HasPrefix(key, allEmpty) {
+					return
+				}
 				fkey := trunc(key)
 				if fkey == "" {
 					return
